@@ -219,3 +219,42 @@ pub fn oracle_c12(c: &TrCase, t: &Trained, bytes: &[u8], fails: &mut Vec<(String
         Err(e) => fails.push(("C12".into(), format!("panic while using the trained tag models: {e}"))),
     }
 }
+
+
+/// C12 on a linearly separable corpus (generated as such): "the stored tag scores equal the learned classifier" includes that class k of
+/// the learner is stored under the tag it was trained for — so, given the gold boundaries, every training sentence gets its own tags back
+pub fn oracle_c12_separable(c: &TrCase, bytes: &[u8], fails: &mut Vec<(String, String)>) {
+    let r = catch(|| {
+        let (model, _) = Model::read_slice(bytes).map_err(|e| e.to_string())?;
+        let p = Predictor::new(model, true).map_err(|e| e.to_string())?;
+        for (k, l) in &c.corpus {
+            if *k != 't' {
+                continue;
+            }
+            let Ok(gold) = Sentence::from_tokenized(l) else { continue };
+            let want: Vec<(String, Vec<Option<String>>)> =
+                gold.iter_tokens().map(|t| (t.surface().to_string(), t.tags().iter().map(|x| x.as_ref().map(|y| y.to_string())).collect())).collect();
+            let mut s = Sentence::from_raw(gold.as_raw_text().to_string()).map_err(|e| e.to_string())?;
+            p.predict(&mut s);
+            s.boundaries_mut().copy_from_slice(gold.boundaries());
+            s.fill_tags();
+            for (tok, (surf, wtags)) in s.iter_tokens().zip(&want) {
+                let got: Vec<Option<String>> = tok.tags().iter().map(|x| x.as_ref().map(|y| y.to_string())).collect();
+                for (j, w) in wtags.iter().enumerate() {
+                    if w.is_some() && got.get(j) != Some(w) {
+                        return Err(format!(
+                            "separable corpus: in the training sentence {l:?} the token {surf:?} is tagged {:?} in category {j}, the corpus says {w:?} (solver {}, windows {}/{}, tag dictionary {:?})",
+                            got.get(j), c.solver, c.cw, c.tw, c.tagdict
+                        ));
+                    }
+                }
+            }
+        }
+        Ok(())
+    });
+    match r {
+        Ok(Ok(())) => {}
+        Ok(Err(e)) => fails.push(("C12".into(), e)),
+        Err(e) => fails.push(("C12".into(), format!("tagging the training corpus panicked: {e}"))),
+    }
+}
